@@ -346,3 +346,56 @@ fn hung(out: &mut std::io::BufWriter<std::fs::File>, round: usize, who: &str) ->
     out.flush()?;
     Ok(0)
 }
+
+/// C06 with attachments that are equal to each other: the same property added several times (by one
+/// thread and by several), the same event several times.  Each call attaches once more.
+pub fn dup(output: &str) -> std::io::Result<i32> {
+    use fastrace::prelude::*;
+    fastrace::set_reporter(rt::CapturingReporter, fastrace::collector::Config::default().report_interval(Duration::from_secs(3600)));
+    shared().free.store(true, Ordering::SeqCst);
+    std::thread::sleep(Duration::from_millis(300));
+    rt::take_log();
+    let root = Span::root("dup-root", SpanContext::new(fastrace::collector::TraceId(0xd0b1e), fastrace::collector::SpanId(1)));
+    let shared_span = Span::enter_with_parent("dup-shared", &root);
+    std::thread::scope(|sc| {
+        for _ in 0..4 {
+            sc.spawn(|| shared_span.add_property(|| ("shard.status", "ok")));
+        }
+    });
+    shared_span.add_property(|| ("retry", "1"));
+    fastrace::flush(); // one of the two equal batches is parked by an earlier cycle
+    shared_span.add_property(|| ("retry", "1"));
+    shared_span.add_properties(|| [("a", "b"), ("a", "b")]);
+    for _ in 0..3 {
+        shared_span.add_event(Event::new("tick"));
+    }
+    {
+        let _g = shared_span.set_local_parent();
+        LocalSpan::add_property(|| ("local", "same"));
+        LocalSpan::add_property(|| ("local", "same"));
+        LocalSpan::add_event(Event::new("ltick"));
+        LocalSpan::add_event(Event::new("ltick"));
+    }
+    drop(shared_span);
+    drop(root);
+    fastrace::flush();
+    let mut props = 0usize;
+    let mut events = 0usize;
+    for l in rt::take_log() {
+        let Ok(e) = serde_json::from_str::<Value>(&l) else { continue };
+        if e["ev"] == "report" {
+            for r in e["recs"].as_array().cloned().unwrap_or_default() {
+                if r["name"] == "dup-shared" {
+                    props += r["props"].as_array().map(|a| a.len()).unwrap_or(0);
+                    events += r["events"].as_array().map(|a| a.len()).unwrap_or(0);
+                }
+            }
+        }
+    }
+    let mut out = std::io::BufWriter::new(std::fs::File::create(output)?);
+    writeln!(out, "{}", json!({"ev":"reset","run":0,"cfg":{"cancelable":false,"enabled":true,"ready":true,"queue":10240,"stack":4096,"ring":10240,"foreign":[],"free":true}}))?;
+    writeln!(out, "{}", json!({"ev":"dup","want_props":4 + 2 + 2 + 2,"got_props":props,"want_events":3 + 2,"got_events":events}))?;
+    writeln!(out, "{}", json!({"ev":"end","run":0,"misses":0,"hung":false}))?;
+    out.flush()?;
+    Ok(0)
+}
